@@ -20,6 +20,8 @@
 //	        closed, at most the channel capacity is left in it.
 //	ext     consumers loop on Acquire; the context is cancelled from inside the At-th file operation (0 = before
 //	        Run is called).
+//	tcan    as ext, but the cancel comes from a timer At microseconds after Run was started (any point of the
+//	        provider's code, not only file operations).
 //	engine  the provider runs inside the real core/engine.Engine with Cons instances, a recording gun and a
 //	        shared `once(Shots)` schedule (Shots = 0: unlimited): what Engine.Run returns, how many shots.
 package c08cell
@@ -30,6 +32,7 @@ import (
 	"fmt"
 	"net/http"
 	"os"
+	"runtime"
 	"strconv"
 	"strings"
 	"sync"
@@ -115,7 +118,8 @@ type Cell struct {
 	Junk    bool   // add header / blank lines that are not entries where the format allows it
 	Pad     int    // pad every entry with this many bytes (files larger than one bufio buffer)
 	Mode    string // drain | stall | ext | engine
-	At      int    // ext: cancel from inside this file operation (0 = before Run)
+	At      int    // ext: cancel from inside this file operation (0 = before Run); tcan: cancel after this many microseconds
+	Jit     int    // != 0: consumers yield / sleep pseudo-randomly (seed) between their Acquire calls
 	Via     string // direct | cfg
 	Shots   int    // engine: shared once(Shots) schedule; 0 = unlimited
 	Tick    time.Duration
@@ -715,11 +719,22 @@ func runDrain(e *env) Obs {
 		e.cancel()
 	}
 	runDone := make(chan error, 1)
+	var runOver atomic.Bool
 	go func() {
 		err := e.p.Run(e.ctx, core.ProviderDeps{Log: zap.NewNop(), PoolID: "c08"})
+		runOver.Store(true)
 		events.Add(1)
 		runDone <- err
 	}()
+	if c.Mode == "tcan" {
+		tm := time.AfterFunc(time.Duration(c.At)*time.Microsecond, func() {
+			if !runOver.Load() {
+				e.io.fired.Store(true)
+			}
+			e.cancel()
+		})
+		defer tm.Stop()
+	}
 
 	cons := c.Cons
 	var ended atomic.Int64
@@ -727,10 +742,12 @@ func runDrain(e *env) Obs {
 	const drainMax = 50000
 	capN := c.Cap // ext cells are cut there too (an `at` that is never reached must not leave an unbounded cell running)
 	for w := 0; w < cons; w++ {
+		jit := newJitter(c.Jit, w)
 		go func() {
 			defer func() { consDone <- struct{}{} }()
 			drained := 0
 			for {
+				jit.pause()
 				a, ok := e.p.Acquire()
 				if !ok {
 					ended.Add(1)
@@ -829,6 +846,31 @@ func runDrain(e *env) Obs {
 	return obs
 }
 
+// jitter perturbs the scheduling of a consumer: pseudo-random yields and short sleeps (own PRNG, seeded per cell)
+type jitter struct{ x uint64 }
+
+func newJitter(seed, w int) *jitter {
+	if seed == 0 {
+		return nil
+	}
+	return &jitter{x: uint64(seed)*0x9E3779B97F4A7C15 + uint64(w+1)*0xBF58476D1CE4E5B9}
+}
+
+func (j *jitter) pause() {
+	if j == nil {
+		return
+	}
+	j.x ^= j.x << 13
+	j.x ^= j.x >> 7
+	j.x ^= j.x << 17
+	switch j.x % 8 {
+	case 0, 1:
+		runtime.Gosched()
+	case 2:
+		time.Sleep(time.Duration(j.x>>8%40) * time.Microsecond)
+	}
+}
+
 // runStall: consumers make exactly Cap Acquire calls in total, then nobody receives any more.
 func runStall(e *env) Obs {
 	c := e.c
@@ -845,9 +887,11 @@ func runStall(e *env) Obs {
 	cons := c.Cons
 	consDone := make(chan struct{}, cons)
 	for w := 0; w < cons; w++ {
+		jit := newJitter(c.Jit, w)
 		go func() {
 			defer func() { consDone <- struct{}{} }()
 			for {
+				jit.pause()
 				if int(tickets.Add(1)) > c.Cap {
 					return
 				}
